@@ -298,14 +298,20 @@ fn load_filtered_policy_line(
         if let Some(ref sec) = key.chars().next().map(|x| x.to_string()) {
             if sec == "p" {
                 for (i, rule) in f.p.iter().enumerate() {
-                    if !rule.is_empty() && rule != &tokens[i + 1] {
+                    // a line shorter than the filter has no such field: it
+                    // does not match (indexing would panic)
+                    if !rule.is_empty()
+                        && Some(&rule.to_string()) != tokens.get(i + 1)
+                    {
                         is_filtered = true;
                     }
                 }
             }
             if sec == "g" {
                 for (i, rule) in f.g.iter().enumerate() {
-                    if !rule.is_empty() && rule != &tokens[i + 1] {
+                    if !rule.is_empty()
+                        && Some(&rule.to_string()) != tokens.get(i + 1)
+                    {
                         is_filtered = true;
                     }
                 }
